@@ -9,7 +9,8 @@ SPEC = dict(
          'library, host/port given to getaddrinfo/connect, file opened, login id and MAC key of the emitted PDU, refusal) was compared with the '
          'oracle derived from the property statement. '
          'Further parts: after-refused (request after a refused re-pointing call goes to the endpoint accepted before), file-switch (file endpoint re-pointed after serving), long-query (6000-character query). '
-         'Part after-bad-first: the asynchronous service is first offered one of 6 URIs it refuses, then the URI under test.',
+         'Part after-bad-first: the asynchronous service is first offered one of 6 URIs it refuses, then the URI under test. '
+         'Cases empty-credentials: a service with credentials re-pointed by a URI whose embedded user name or key is empty must not send the former credentials to the new host.',
     bounds=dict(
         quick='factored product: every letter-case variant of ksi, ksi+http, ksi+https, ksi+tcp, file, http, https and the unknown schemes ftp, ksix, '
               'ksi+udp (523 spellings) x one representative of the rest (user-info u:k, host name, port 80, path /a/b.c, query, fragment); plus the '
